@@ -234,6 +234,52 @@ func GenC19(seed uint64, i int) *world.Case {
 	for k := 0; k < nbase; k++ {
 		c.Script = append(c.Script, h.runBase(true))
 	}
+	if r.Chance(0.3) {
+		// A client gives up: a shared result is discarded (so that it has to be
+		// recomputed), then several clients run over it at once and one of them
+		// cancels its run part-way. The others must be served as if alone.
+		if cfg.DelayProfile == "none" || cfg.DelayProfile == "" {
+			cfg.DelayProfile = "mixed"
+		}
+		cfg.UserDelays = true
+		victim := h.live[r.Intn(len(h.live))]
+		var clients [][]world.Step
+		saved := h.live
+		for k := 0; k < 2+r.Intn(3); k++ {
+			h.live = []string{victim}
+			st, ok := h.runOver(true)
+			if !ok {
+				continue
+			}
+			if k == 0 || r.Chance(0.25) {
+				st.MustSucceed = false
+				if r.Chance(0.5) {
+					st.CancelAfter = int64(time.Duration(r.Pick(1, 20, 300, 2000, 10000)) * time.Millisecond)
+				} else {
+					st.CancelAtEvent = r.Pick(1, 2, 3, 5, 8, 13, 21, 34, 55, 89, 144, 300)
+				}
+				clients = append(clients, []world.Step{st})
+				continue
+			}
+			clients = append(clients, []world.Step{st, {Op: "scan", Of: st.ID, MustSucceed: true}})
+		}
+		h.live = saved
+		if len(clients) >= 2 {
+			c.Config = cfg
+			if r.Chance(0.5) {
+				// Overlapping graphs discarded one after the other: the tasks of
+				// victim are discarded twice.
+				h.live = []string{victim}
+				if st, ok := h.runOver(true); ok {
+					c.Script = append(c.Script, st, world.Step{Op: "discard", Of: victim}, world.Step{Op: "discard", Of: st.ID})
+				}
+				h.live = saved
+			}
+			c.Script = append(c.Script, world.Step{Op: "discard", Of: victim})
+			c.Script = append(c.Script, world.Step{Op: "par", Par: clients})
+			return c
+		}
+	}
 	withDiscard := r.Chance(0.3)
 	nclients := 2 + r.Intn(4)
 	var clients [][]world.Step
